@@ -4,6 +4,7 @@ package main
 // callbacks, go/defer/select, locks and tokens.
 
 import (
+	"strconv"
 	"fmt"
 	"go/constant"
 	"go/types"
@@ -409,7 +410,9 @@ func (u *Unit) havocAllExcept(st *State, why string, direct map[string]Sort) {
 	st.epoch = u.eng.nextEpoch()
 	newHeaps := map[string]T{}
 	for _, n := range u.heapOrder {
-		if u.immutableHeap(n) {
+		// immutable field heaps and internal ghost heaps are out of reach of
+		// re-entrant code - but not of the code being summarised itself
+		if _, isDirect := direct[n]; u.immutableHeap(n) && !isDirect {
 			newHeaps[n] = oldHeaps[n]
 			continue
 		}
@@ -659,6 +662,17 @@ func (u *Unit) counterInit(name string, sort Sort) T {
 		return IntLit(0)
 	}
 	return T{fmt.Sprintf("((as const %s) 0)", sort), sort}
+}
+
+// eventMayMatch: for havoc purposes (which counters can change in a region of
+// code): a pattern restricted to one call site (NAME#k) may match any call of NAME.
+func eventMayMatch(pattern, name string) bool {
+	if i := strings.LastIndex(pattern, "#"); i > 0 {
+		if _, err := strconv.Atoi(pattern[i+1:]); err == nil {
+			pattern = pattern[:i]
+		}
+	}
+	return eventMatches(pattern, name)
 }
 
 func eventMatches(pattern, name string) bool {
@@ -1425,7 +1439,7 @@ func (u *Unit) iterateCall(st *State, instr ssa.Instruction, fs *FuncSpec, name 
 	for _, ev := range u.eng.spec.Events {
 		hit := false
 		for n := range names {
-			if eventMatches(ev.Pattern, n) {
+			if eventMayMatch(ev.Pattern, n) {
 				hit = true
 			}
 		}
